@@ -622,20 +622,20 @@ def lvalue_root(e):
     return None
 
 
-def assigned(x, acc=None, declared=None):
+def assigned(x, acc=None, declared=None, push=False):
     """rust names assigned (=, op=, &mut borrow, mem::swap) inside x, and names declared by `let` inside x"""
     acc = set() if acc is None else acc; declared = set() if declared is None else declared
     if isinstance(x, list):
-        for y in x: assigned(y, acc, declared)
+        for y in x: assigned(y, acc, declared, push)
     elif isinstance(x, tuple) and x:
         if x[0] == "assign":
             r = lvalue_root(x[1])
             if r: acc.add(r)
-            assigned(x[3], acc, declared)
+            assigned(x[3], acc, declared, push)
         elif x[0] == "let":
             if isinstance(x[1], str): declared.add(x[1])
             else: declared.update(x[1][1])
-            if x[4] is not None: assigned(x[4], acc, declared)
+            if x[4] is not None: assigned(x[4], acc, declared, push)
         elif x[0] == "ref" and x[1]:
             r = lvalue_root(x[2])
             if r: acc.add(r)
@@ -649,13 +649,18 @@ def assigned(x, acc=None, declared=None):
             assigned(x[3], acc, declared)
         elif x[0] == "call":
             for a in x[2]:
-                assigned(a, acc, declared)
+                assigned(a, acc, declared, push)
                 a2 = strip_paren(a)
                 if a2[0] == "path" and len(a2[1]) == 1: acc.add(("maybe", a2[1][0]))   # bare out-parameter reborrow
         elif x[0] in ("path", "num", "bool"): pass
         else:
+            if push and x[0] == "mcall" and x[2] == "push":  # phase 4d (soundness fix): `v.push(x)` mutates `v`; asked for by the merge of an `if`
+                # statement only (loops pass a pushed-to vector on as a re-bound captured parameter, which is equivalent and what the
+                # existing equalities are proved against)
+                r = lvalue_root(x[1])
+                if r: acc.add(r)
             for y in x:
-                if isinstance(y, (tuple, list)): assigned(y, acc, declared)
+                if isinstance(y, (tuple, list)): assigned(y, acc, declared, push)
     return acc, declared
 
 
@@ -764,7 +769,7 @@ class FnLower:
     # ---------------------------------------------------------------- types
     def wty(self, t, what="type"):
         if t[0] == "name" and t[1] == "isize": return "i64"            # 64-bit target (the harness): isize = i64
-        if t[0] == "name" and t[1] in ("u64", "usize", "u8", "u128", "bool", "i64", "u32"): return t[1]
+        if t[0] == "name" and t[1] in ("u64", "usize", "u8", "u128", "bool", "i64", "u32", "i32"): return t[1]
         self.fail(f"{what} {t}")
 
     # ---------------------------------------------------------------- liveness
@@ -1004,6 +1009,9 @@ class FnLower:
         if k == "bool": return ("v", Val("True" if e[1] else "False", "bool"))
         if k == "path":
             if len(e[1]) != 1:
+                if len(e[1]) >= 2 and e[1][-2] in self.tr.enums and e[1][-1] in self.tr.enums[e[1][-2]]["ctors"]:      # phase 4d: `Enum::Variant` as a value
+                    en = self.tr.enums[e[1][-2]]
+                    return ("v", Val(f"{en['lean']}{en['ctors'][e[1][-1]]}", ("enum", e[1][-2])))
                 if e[1][-1] in self.consts: return ("v", Val(str(self.consts[e[1][-1]][0]), self.consts[e[1][-1]][1]))
                 self.fail(f"path {'::'.join(e[1])}")
             if e[1][0] not in env and e[1][0] in self.consts: return ("v", Val(str(self.consts[e[1][0]][0]), self.consts[e[1][0]][1]))
@@ -1017,6 +1025,7 @@ class FnLower:
             if v.kind == "struct": return ("v", Val(v.lean, ("struct", v.ty), [v.lean]))
             if v.kind == "val": return ("v", Val(v.lean, v.ty, [v.lean]))
             if v.kind == "list": return ("v", Val(v.lean, "list", [v.lean]))
+            if v.kind == "ilist": return ("v", Val(v.lean, "ilist", [v.lean]))
             if v.kind in ("modlist", "moplist"): return ("v", Val(v.lean, v.kind, [v.lean]))
             self.fail(f"use of `{e[1][0]}` ({v.kind}) as a value")
         if k == "deref":
@@ -1207,6 +1216,15 @@ class FnLower:
             for v in (lo, hi, xv):
                 if v.ty not in WORD: self.fail(f"range contains on {v.ty}")
             return ("v", Val(f"({lo.atom} ≤ {xv.atom} ∧ {xv.atom} {'≤' if recv[3] else '<'} {hi.atom})", "bool", lo.deps | hi.deps | xv.deps))
+        if m == "push" and len(args) == 1 and recv[0] == "path" and len(recv[1]) == 1 and recv[1][0] in env and env[recv[1][0]].kind == "ilist":
+            v = env[recv[1][0]]; a = self.ex(args[0], env, ops)
+            if a.ty not in ("i32", "int"): self.fail(f"push of a {a.ty} onto a Vec<i32>")
+            ops.append(("let", v.lean, f"{v.lean} ++ [{unparen(a.atom)}]"))
+            return ("v", Val("()", "unit"))
+        if m == "abs" and not args and self.is_i32(recv, env):
+            a = self.ex(recv, env, ops)
+            self.monadic_used = True                       # `i32::abs`: i32::MIN panics with overflow checks
+            return ("m", f"ckI32 (Int.ofNat (Int.natAbs {a.atom}))", "i32")
         if m == "abs" and not args:
             a = self.ex(recv, env, ops)
             if a.ty != "i64": self.fail("abs on " + str(a.ty))
@@ -1226,6 +1244,12 @@ class FnLower:
             if a.ty == "int" and b.ty == "int": self.fail(f"{m} on untyped literals")
             f = {"wrapping_add": "wAdd", "wrapping_sub": "wSub", "wrapping_mul": "wMul"}[m]
             return ("v", Val(f"({f} {a.atom} {b.atom})", a.ty if a.ty != "int" else b.ty, a.deps | b.deps))
+        if m == "cmp" and len(args) == 1:                  # phase 4d: `a.cmp(&b)` on words
+            b0 = strip_paren(args[0])
+            if b0[0] == "ref" and not b0[1]: b0 = b0[2]
+            a, b = self.seq([lambda: self.ex(recv, env, ops), lambda: self.ex(b0, env, ops)], ops)
+            if a.ty not in ("u64", "usize") or b.ty not in ("u64", "usize"): self.fail(f"cmp on {a.ty}, {b.ty}")
+            return ("v", Val(f"(cmpW {a.atom} {b.atom})", ("enum", "Ordering"), a.deps | b.deps))
         if m == "reverse_bits" and not args:
             a = self.ex(recv, env, ops)
             if a.ty not in ("u32", "u64"): self.fail("reverse_bits on " + str(a.ty))
@@ -1278,8 +1302,21 @@ class FnLower:
                 ops.append(("letcode", f"{t} : Bool", code))
                 return ("v", Val(f"({t} = true)", "bool", [t]))
             return ("v", Val(f"({l.atom} {'∧' if op == '&&' else '∨'} {r.atom})", "bool", l.deps | r.deps))
-        l, r = self.seq([lambda: self.ex(e[2], env, ops), lambda: self.ex(e[3], env, ops)], ops)
+        # phase 4d: in `a op b` with `a : i32` the right operand is an i32 too - this types an untyped literal shifted by a variable
+        # (`zi * (1 << i)`); the hint never crosses into the operands of a shift (its amount has a type of its own)
+        outer_hint = getattr(self, "lit_hint", None)
+        vals_l = []
+        def left():
+            if op in ("<<", ">>"): self.lit_hint = None
+            v = self.ex(e[2], env, ops); vals_l.append(v); return v
+        def right():
+            self.lit_hint = "i32" if (vals_l and vals_l[0].ty == "i32" and op in ("+", "-", "*", "&", "|", "^")) else None
+            return self.ex(e[3], env, ops)
+        try: l, r = self.seq([left, right], ops)
+        finally: self.lit_hint = outer_hint
         deps = l.deps | r.deps
+        if op in ("<<", ">>") and l.ty == "int" and outer_hint == "i32" and strip_paren(e[2])[0] == "num": l = Val(l.atom, "i32", l.deps)
+        if "i32" in (l.ty, r.ty): return self.binop_i32(op, l, r, deps, e)
         if op in ("==", "!=", "<", ">", "<=", ">="):
             if not ((l.ty in WORD and r.ty in WORD) or (l.ty == r.ty == "i64") or (l.ty == "i64" and r.ty == "int") or (l.ty == r.ty == "u128")
                     or (op in ("==", "!=") and l.ty == r.ty and isinstance(l.ty, tuple) and l.ty[0] == "enum")):
@@ -1345,6 +1382,31 @@ class FnLower:
             v = a + b if e[1] == "+" else a - b
             return v if 0 <= v < 2**64 else None
         return None
+
+    def is_i32(self, e, env):
+        e = strip_paren(e)
+        return e[0] == "path" and len(e[1]) == 1 and e[1][0] in env and env[e[1][0]].kind == "w" and env[e[1][0]].ty == "i32"
+
+    def binop_i32(self, op, l, r, deps, e):
+        """phase 4d: i32 = Int; `+ - *` overflow-checked (`ckI32`), `&` two's complement (`andI32`), `>> k` arithmetic (`shrI32`),
+        `x << v` checks only the amount (`ckShlI32`: wraps like the hardware shift), comparisons"""
+        if op in ("<<", ">>"):
+            if l.ty != "i32" or r.ty not in ("i32", "int"): self.fail(f"shift `{op}` on {l.ty} by {r.ty}")
+            k = self.const_int(e[3])
+            if op == ">>":
+                if k is None or k >= 32: self.fail("i32 `>>` by a non-constant (or >= 32) amount")
+                return ("v", Val(f"(shrI32 {l.atom} {k})", "i32", deps))
+            self.monadic_used = True
+            return ("m", f"ckShlI32 {l.atom} {r.atom}", "i32")
+        if not (l.ty in ("i32", "int") and r.ty in ("i32", "int")): self.fail(f"`{op}` on {l.ty}, {r.ty}")
+        if op in ("==", "!=", "<", ">", "<=", ">="):
+            sym = {"==": "=", "!=": "≠", "<": "<", ">": ">", "<=": "≤", ">=": "≥"}[op]
+            return ("v", Val(f"({l.atom} {sym} {r.atom})", "bool", deps))
+        if op in ("+", "-", "*"):
+            self.monadic_used = True
+            return ("m", f"ckI32 ({unparen(l.atom)} {op} {unparen(r.atom)})", "i32")
+        if op == "&": return ("v", Val(f"(andI32 {l.atom} {r.atom})", "i32", deps))
+        self.fail(f"i32 operator `{op}`")
 
     def binop_i64(self, op, l, r, deps):
         if not (l.ty in ("i64", "int") and r.ty in ("i64", "int")): self.fail(f"`{op}` on {l.ty}, {r.ty}")
@@ -1434,6 +1496,10 @@ class FnLower:
             ops.append(("let", f"({la}, {lb})", f"({lb}, {la})"))
             return ("v", Val("()", "unit"))
         if len(path) == 1 and path[0] in env and env[path[0]].kind == "closure": return self.closure_call(env[path[0]], args, env, ops)
+        if path[-2:] in (["cmp", "max"], ["cmp", "min"]) and len(args) == 2:          # phase 4d: `std::cmp::max/min` on words
+            a, b = self.seq([lambda: self.ex(args[0], env, ops), lambda: self.ex(args[1], env, ops)], ops)
+            if a.ty not in WORD or b.ty not in WORD: self.fail(f"std::cmp::{fname} on {a.ty}, {b.ty}")
+            return ("v", Val(f"({fname} {a.atom} {b.atom})", a.ty if a.ty != "int" else b.ty, a.deps | b.deps))
         exn = self.extern_of(e, env)
         if exn is not None: return self.extern_call(exn, env, ops)
         sig = None
@@ -1636,6 +1702,9 @@ class FnLower:
         inner = strip_paren(e[2])
         if inner[0] == "num" and inner[2] in (None, "i64", "isize"): return ("v", Val(f"(-{inner[1]})", "i64"))
         v = self.ex(e[2], env, ops)
+        if v.ty == "i32":
+            self.monadic_used = True
+            return ("m", f"ckI32 (-{v.atom})", "i32")
         if v.ty != "i64": self.fail(f"unary - on {v.ty}")
         self.monadic_used = True
         return ("m", f"ckI64 (-{v.atom})", "i64")
@@ -1767,7 +1836,7 @@ class FnLower2(FnLower):
             for x in [y for y in env if y in caps]:
                 cvv = env[x]
                 if cvv.kind not in ("w", "b", "mod", "mulop", "val") or not self.all_init(env, [x]): self.fail(f"closure `{pat}` captures `{x}` ({cvv.kind})", ln)
-                tyl = "Int" if cvv.ty == "i64" else self.LEANTY.get(cvv.kind, "Nat")
+                tyl = "Int" if cvv.ty in ("i64", "i32") else self.LEANTY.get(cvv.kind, "Nat")
                 binders.append(f"({cvv.lean} : {tyl})"); capnames.append(cvv.lean)
             ptys = []
             for (pn, pt) in i0[1]:
@@ -1816,9 +1885,14 @@ class FnLower2(FnLower):
         if i0[0] == "path" and len(i0[1]) == 1 and i0[1][0] in env and env[i0[1][0]].kind in ("mod", "mulop", "cr", "list", "modlist", "moplist"):
             env[pat] = env[i0[1][0]]; return
         n = self.newvar(pat)
+        if i0[0] == "vec" and not i0[1] and pat in self.ilist_vars:       # phase 4d: `let mut res = vec![]` of the returned `Vec<i32>`
+            ops.append(("let", f"{n} : List Int", "[]")); env[pat] = Var("ilist", n, rust=pat); return
         # evaluate first (the initialiser may mention the variable being shadowed)
         ops1 = []
         t = self.ex_into(n, init, env, ops1)
+        if pat in self.i32vars:                # phase 4d: integer-literal fallback (see infer_i32)
+            if t == "int" and ops1 and ops1[-1][0] == "let": ops1[-1] = ("let", f"{n} : Int", ops1[-1][2]); t = "i32"
+            else: self.fail(f"`{pat}` falls back to i32 but is initialised with a {t}", ln)
         if pat in self.i64vars:
             if t == "int" and ops1 and ops1[-1][0] == "let": ops1[-1] = ("let", f"{n} : Int", ops1[-1][2]); t = "i64"
             elif t != "i64": self.fail(f"`{pat}` is used as an i64 but initialised with a {t}", ln)
@@ -1828,7 +1902,7 @@ class FnLower2(FnLower):
             ops1[-1] = ("let", f"{n} : Bool", f"decide ({o[2]})")
             env[pat] = Var("b", n, "bool", rust=pat)
         elif t in WORD: env[pat] = Var("w", n, (dty if dty in WORD else None) or t, rust=pat)
-        elif t in ("i64", "u128", "u32"): env[pat] = Var("w", n, t, rust=pat)
+        elif t in ("i64", "u128", "u32", "i32"): env[pat] = Var("w", n, t, rust=pat)
         elif t == "mod": env[pat] = Var("mod", n, rust=pat)
         elif isinstance(t, tuple) and t[0] == "struct": env[pat] = Var("struct", n, t[1], rust=pat)
         elif isinstance(t, tuple) and t[0] == "enum": env[pat] = Var("val", n, t, rust=pat)
@@ -1909,7 +1983,7 @@ class FnLower2(FnLower):
         out = []
         for n in names:
             v = env[n]
-            if v.kind in ("w", "b", "out", "struct", "list"): out.append(v.lean)
+            if v.kind in ("w", "b", "out", "struct", "list", "ilist"): out.append(v.lean)
             elif v.kind in ("arr", "outarr"): out.extend(v.lean)
             else: self.fail(f"variable `{n}` ({v.kind}) assigned inside a branch")
         return out
@@ -1922,8 +1996,8 @@ class FnLower2(FnLower):
             elif not v.init: return False
         return True
 
-    def assigned_outer(self, x, env):
-        a, d = assigned(x)
+    def assigned_outer(self, x, env, push=False):
+        a, d = assigned(x, push=push)
         res = set()
         for y in a:
             if isinstance(y, str):
@@ -1939,7 +2013,7 @@ class FnLower2(FnLower):
             rest = K(lambda env2, _v, ops2: self.stmts(stmts, i + 1, tail, env2, ops2, k, nested), after, toplevel=k.toplevel)
             a = self.block_code(e[2], dict_copy(env), rest); b = self.block_code(eb, dict_copy(env), rest)
             return ("if", c, a, b)
-        asg = self.assigned_outer([e[2][0], e[2][1], eb[0], eb[1]], env)
+        asg = self.assigned_outer([e[2][0], e[2][1], eb[0], eb[1]], env, push=True)
         live_out = after | (self.ret_live & asg)
         mv = [n for n in env if n in asg and n in live_out]
         names = self.merge_names(env, mv)
@@ -1986,13 +2060,13 @@ class FnLower2(FnLower):
         for n in carried + captured:
             if not self.all_init(env, [n]): self.fail(f"variable `{n}` is live across the loop but not initialised before it", ln)
         for n in carried:
-            if env[n].kind not in ("w", "b", "arr", "out", "outarr", "list", "struct"): self.fail(f"loop-carried variable `{n}` of kind {env[n].kind}", ln)
+            if env[n].kind not in ("w", "b", "arr", "out", "outarr", "list", "struct", "ilist"): self.fail(f"loop-carried variable `{n}` of kind {env[n].kind}", ln)
         cap_names = []; cap_binders = []
         for n in captured:
             v = env[n]
             if v.kind == "handle": continue
             nm = [v.lean] if v.kind == "cr" else v.names()
-            tyl = "Modulus" if v.kind == "cr" else ("Int" if v.ty == "i64" else self.LEANTY.get(v.kind, "Nat"))
+            tyl = "Modulus" if v.kind == "cr" else ("Int" if v.ty in ("i64", "i32") else self.LEANTY.get(v.kind, "Nat"))
             for x in nm:
                 if v.kind == "struct": tyl = self.tr.structs[v.ty]["lean"]
                 if v.kind == "val" and isinstance(v.ty, tuple) and v.ty[0] == "enum": tyl = self.tr.enums[v.ty[1]]["lean"]
@@ -2009,7 +2083,7 @@ class FnLower2(FnLower):
         for n in carried:
             v = env[n]
             for x in v.names():
-                car_names.append(x); car_types.append("Int" if v.ty == "i64" else self.LEANTY.get(v.kind, "Nat"))
+                car_names.append(x); car_types.append("Int" if v.ty in ("i64", "i32") else self.LEANTY.get(v.kind, "Nat"))
         # a `for` nested in the body of another `for` is emitted as a function of its own that RETURNS its loop-carried state
         # (no continuation inside it): its body must not leave it (`return` / `break`)
         nested_for = bool(self.loop_stack)
@@ -2047,7 +2121,7 @@ class FnLower2(FnLower):
         self.aux.append(ent)
         return ("call", callstr(count, lo.atom))
 
-    LEANTY = {"w": "Nat", "b": "Bool", "out": "Nat", "mod": "Modulus", "mulop": "MulOperand", "list": "List Nat",
+    LEANTY = {"w": "Nat", "b": "Bool", "out": "Nat", "mod": "Modulus", "mulop": "MulOperand", "list": "List Nat", "ilist": "List Int",
               "modlist": "List Modulus", "moplist": "List MulOperand"}
 
     def for_loop_nested(self, s, stmts, i, tail, env, ops, k, nested):
@@ -2079,7 +2153,7 @@ class FnLower2(FnLower):
             v = env[n]
             if v.kind in ("handle", "closure"): continue
             nm = [v.lean] if v.kind == "cr" else v.names()
-            tyl = "Modulus" if v.kind == "cr" else ("Int" if v.ty == "i64" else self.LEANTY.get(v.kind, "Nat"))
+            tyl = "Modulus" if v.kind == "cr" else ("Int" if v.ty in ("i64", "i32") else self.LEANTY.get(v.kind, "Nat"))
             for x in nm:
                 if v.kind == "struct": tyl = self.tr.structs[v.ty]["lean"]
                 if v.kind == "val" and isinstance(v.ty, tuple) and v.ty[0] == "enum": tyl = self.tr.enums[v.ty[1]]["lean"]
@@ -2090,7 +2164,7 @@ class FnLower2(FnLower):
         for n in carried:
             v = env[n]
             for x in v.names():
-                car_names.append(x); car_types.append("Int" if v.ty == "i64" else self.tr.structs[v.ty]["lean"] if v.kind == "struct" else self.LEANTY.get(v.kind, "Nat"))
+                car_names.append(x); car_types.append("Int" if v.ty in ("i64", "i32") else self.tr.structs[v.ty]["lean"] if v.kind == "struct" else self.LEANTY.get(v.kind, "Nat"))
         lname = f"{self.name}_loop{self.nloop}"
         iv = self.newvar(var)
         def callstr(fuel, ivar): return " ".join([lname] + cap_names + [fuel, ivar] + car_names)
@@ -2128,13 +2202,13 @@ class FnLower2(FnLower):
             if not self.all_init(env, [n]):
                 self.fail(f"variable `{n}` is live across the loop but not initialised before it", ln)
         for n in carried:
-            if env[n].kind not in ("w", "b", "arr", "out", "outarr", "list", "struct"): self.fail(f"loop-carried variable `{n}` of kind {env[n].kind}", ln)
+            if env[n].kind not in ("w", "b", "arr", "out", "outarr", "list", "struct", "ilist"): self.fail(f"loop-carried variable `{n}` of kind {env[n].kind}", ln)
         cap_names = []; cap_binders = []
         for n in captured:
             v = env[n]
             if v.kind == "handle": continue
             nm = [v.lean] if v.kind == "cr" else v.names()
-            tyl = "Modulus" if v.kind == "cr" else ("Int" if v.ty == "i64" else self.LEANTY.get(v.kind, "Nat"))
+            tyl = "Modulus" if v.kind == "cr" else ("Int" if v.ty in ("i64", "i32") else self.LEANTY.get(v.kind, "Nat"))
             for x in nm:
                 if v.kind == "struct": tyl = self.tr.structs[v.ty]["lean"]
                 if v.kind == "val" and isinstance(v.ty, tuple) and v.ty[0] == "enum": tyl = self.tr.enums[v.ty[1]]["lean"]
@@ -2145,7 +2219,7 @@ class FnLower2(FnLower):
         for n in carried:
             v = env[n]
             for x in v.names():
-                car_names.append(x); car_types.append("Int" if v.ty == "i64" else self.LEANTY.get(v.kind, "Nat"))
+                car_names.append(x); car_types.append("Int" if v.ty in ("i64", "i32") else self.LEANTY.get(v.kind, "Nat"))
         if not car_names: self.fail("loop without loop-carried state", ln)
         lname = f"{self.name}_loop{self.nloop}"
         def callstr(fuel): return " ".join([lname] + cap_names + [fuel] + car_names)
@@ -2330,9 +2404,56 @@ class FnTranslate(FnLower2):
         while walk(body): pass
         return vs
 
+    def infer_i32(self):
+        """phase 4d.  (1) integer-literal fallback: a `let [mut] x = <unsuffixed literal>;` without a type whose every other occurrence is
+        `x += lit` / `x -= lit` or the AMOUNT of a shift (`Shl<T> for i32` exists for every integer `T`: no constraint) has type i32 in Rust.
+        (2) the local returned by a function of type `Vec<i32>` (tail expression / `return x`) is a `Vec<i32>`."""
+        body = [self.fn["body"][0], self.fn["body"][1]]
+        cands = set()
+        def lets(x):
+            if isinstance(x, list):
+                for y in x: lets(y)
+            elif isinstance(x, tuple) and x:
+                if x[0] == "let" and isinstance(x[1], str) and x[3] is None and x[4] is not None:
+                    i0 = strip_paren(x[4])
+                    if i0[0] == "num" and i0[2] is None: cands.add(x[1])
+                for y in x:
+                    if isinstance(y, (tuple, list)): lets(y)
+        lets(body)
+        total = {c: 0 for c in cands}; ok = {c: 0 for c in cands}
+        def count(x):
+            if isinstance(x, list):
+                for y in x: count(y)
+            elif isinstance(x, tuple) and x:
+                if x[0] == "path" and len(x[1]) == 1 and x[1][0] in total: total[x[1][0]] += 1
+                if x[0] == "assign" and x[2] in ("+", "-", "+=", "-="):
+                    l = strip_paren(x[1]); r = strip_paren(x[3])
+                    if l[0] == "path" and len(l[1]) == 1 and l[1][0] in ok and r[0] == "num" and r[2] is None: ok[l[1][0]] += 1
+                if x[0] == "bin" and x[1] in ("<<", ">>"):
+                    r = strip_paren(x[3])
+                    if r[0] == "path" and len(r[1]) == 1 and r[1][0] in ok: ok[r[1][0]] += 1
+                for y in x:
+                    if isinstance(y, (tuple, list)): count(y)
+        count(body)
+        i32vars = {c for c in cands if total[c] > 0 and total[c] == ok[c]}
+        ilist = set()
+        if self.rty(self.fn["ret"]) == ("vec", ("name", "i32")):
+            def rets(x):
+                if isinstance(x, list):
+                    for y in x: rets(y)
+                elif isinstance(x, tuple) and x:
+                    if x[0] == "return" and x[1] is not None and strip_paren(x[1])[0] == "path" and len(strip_paren(x[1])[1]) == 1: ilist.add(strip_paren(x[1])[1][0])
+                    for y in x:
+                        if isinstance(y, (tuple, list)): rets(y)
+            rets(body)
+            t = self.fn["body"][1]
+            if t is not None and strip_paren(t)[0] == "path" and len(strip_paren(t)[1]) == 1: ilist.add(strip_paren(t)[1][0])
+        return i32vars, ilist
+
     def signature(self):
         fn = self.fn
         self.i64vars = self.infer_i64()
+        self.i32vars, self.ilist_vars = self.infer_i32()
         CLOSURE_CAPS.clear()
         def find_closures(x):
             if isinstance(x, list):
@@ -2381,6 +2502,8 @@ class FnTranslate(FnLower2):
                 params.append(("w", pt[1])); env[pn] = Var("w", lean, pt[1], rust=pn); env[pn].isref = isref; self.binders.append(f"({lean} : Nat)")
             elif pt[0] == "name" and pt[1] in ("i64", "isize"):
                 params.append(("wi", "i64")); env[pn] = Var("w", lean, "i64", rust=pn); self.binders.append(f"({lean} : Int)")
+            elif pt[0] == "name" and pt[1] == "i32":           # phase 4d: i32 = Int with `ckI32`-checked arithmetic
+                params.append(("wi", "i32")); env[pn] = Var("w", lean, "i32", rust=pn); self.binders.append(f"({lean} : Int)")
             elif pt[0] == "name" and pt[1] == "bool":
                 params.append(("b",)); env[pn] = Var("b", lean, "bool", rust=pn); self.binders.append(f"({lean} : Bool)")
             elif self.abs and (pt == ("name", "f64") or (pt[0] == "ref" and not pt[1] and pt[2][0] == "name" and pt[2][1] in self.opts.get("opaque", []))
@@ -2454,7 +2577,9 @@ class FnTranslate(FnLower2):
         elif rt[0] == "name" and rt[1] in ("u64", "usize", "u8", "bool", "u32"): ret = rt[1]
         elif rt[0] == "name" and rt[1] in ("i64", "isize"): ret = "i64"
         elif rt[0] == "name" and rt[1] in self.tr.structs: ret = ("struct", rt[1])
+        elif rt[0] == "name" and rt[1] in self.tr.enums: ret = ("enum", rt[1])          # phase 4d
         elif rt == ("vec", ("name", "usize")) or rt == ("vec", ("name", "u64")): ret = "list"
+        elif rt == ("vec", ("name", "i32")): ret = "ilist"
         elif rt[0] == "tuple" and all(t[0] == "name" and t[1] in ("u64", "usize", "i64") for t in rt[1]): ret = ("tuple", [t[1] for t in rt[1]])
         else: self.fail(f"return type {rt}")
         self.ret = ret
@@ -2463,7 +2588,9 @@ class FnTranslate(FnLower2):
         for pn in self.outs: tys += [self.tr.structs[env[pn].ty]["lean"]] if env[pn].kind == "struct" else ["List Nat"] if env[pn].kind == "list" else ["Nat"] * len(env[pn].names())
         if is_tup(ret): tys += ["Int" if t == "i64" else "Nat" for t in ret[1]]
         elif isinstance(ret, tuple) and ret[0] == "struct": tys.append(self.tr.structs[ret[1]]["lean"])
+        elif isinstance(ret, tuple) and ret[0] == "enum": tys.append(self.tr.enums[ret[1]]["lean"])
         elif ret == "list": tys.append("List Nat")
+        elif ret == "ilist": tys.append("List Int")
         elif ret != "unit": tys.append("Bool" if ret == "bool" else "Int" if ret == "i64" else "Nat")
         if not tys: self.fail("function without result")
         self.ret_lean = " × ".join(tys)
@@ -2576,7 +2703,7 @@ class FnTranslate(FnLower2):
                 parts += v.names()
             if self.ret != "unit":
                 if val is None: self.fail("missing return value")
-                if isinstance(self.ret, tuple) and self.ret[0] == "struct" or self.ret in ("list", "i64"):
+                if isinstance(self.ret, tuple) and self.ret[0] in ("struct", "enum") or self.ret in ("list", "i64", "ilist"):
                     if val.ty != self.ret and not (self.ret == "i64" and val.ty == "int"): self.fail(f"function returning {self.ret} returns {val.ty}")
                     parts.append(val.atom)
                 elif is_tup(self.ret):
@@ -2720,16 +2847,16 @@ class FnTranslate(FnLower2):
                 else: out.append(chead); out += self.seq_p(a["code"], 2)
                 out.append(""); continue
             out.append(f"/-- loop at line {a['line']} of `{fn['name']}` ({fn['file']}); fuel {a['fuel']} at the call site -/")
-            out.append(f"def {a['name']} {' '.join(a['binders'])} : Nat → {' → '.join(a['car_types'])} → {a.get('rty', rty)}".replace("  ", " "))
-            pats = ", ".join(a["car_names"])
+            out.append(f"def {a['name']} {' '.join(a['binders'])} : {' → '.join(['Nat'] + list(a['car_types']) + [a.get('rty', rty)])}".replace("  ", " "))
+            pats = "".join(", " + n for n in a["car_names"])          # (phase 4d: a loop may carry no state at all - `compare_uint`)
             fu = "fuel"
             if mon or "rty" in a:
-                out.append(f"  | 0, {pats} => {self.term_m(a['exhaust'], 4, mon)}")
-                out.append(f"  | {fu}+1, {pats} => do")
+                out.append(f"  | 0{pats} => {self.term_m(a['exhaust'], 4, mon)}")
+                out.append(f"  | {fu}+1{pats} => do")
                 out += self.seq_m(a["body"], 4, mon)
             else:
-                out.append(f"  | 0, {pats} =>"); out += self.seq_p(a["exhaust"], 4)
-                out.append(f"  | {fu}+1, {pats} =>"); out += self.seq_p(a["body"], 4)
+                out.append(f"  | 0{pats} =>"); out += self.seq_p(a["exhaust"], 4)
+                out.append(f"  | {fu}+1{pats} =>"); out += self.seq_p(a["body"], 4)
             out.append("")
         out.append(f"/-- `{fn['name']}`  {fn['file']}:{fn['line0']}-{fn['line1']}  sha256/64(normalised source) = {fn['hash']}")
         out.append(f"    names: {' '.join(self.namemap)} -/")
@@ -2772,7 +2899,9 @@ def setIdx (l : List Nat) (i v : Nat) : R (List Nat) := if i < l.length then .ok
 def idx (l : List Nat) (i : Nat) : R Nat := match l[i]? with | some x => .ok x | none => .error .oob
 """
 
-ENUMS = {"SchemeType": {"lean": "Scheme", "ctors": {"BFV": ".bfv", "BGV": ".bgv", "CKKS": ".ckks"}}}
+ENUMS = {"SchemeType": {"lean": "Scheme", "ctors": {"BFV": ".bfv", "BGV": ".bgv", "CKKS": ".ckks"}},
+         # phase 4d: `std::cmp::Ordering` = Lean's `Ordering` (`a.cmp(&b)` on words = `cmpW a b` of the Word2 prelude)
+         "Ordering": {"lean": "Ordering", "ctors": {"Less": ".lt", "Equal": ".eq", "Greater": ".gt"}}}
 
 US = "src/util/uintsmallmod.rs"; UB = "src/util/basic.rs"; UN = "src/util/number_theory.rs"; UT = "src/util/ntt.rs"
 # functions to translate, callees first.  `monadic`: force the result into `R` (to match the hand model's type; wrapping a total
@@ -3205,6 +3334,38 @@ FILES += [
                         "opens": ["HC.GenW", "HC.GenP"], "prelude": EVALCT_PRELUDE}),
     ("ScalingFns.lean", {"ns": "GenS", "imports": ["Heathcliff.Gen.WordFns"], "table": TABLE_SCALING, "opens": ["HC.GenW"], "prelude": SCALING_PRELUDE}),
     ("RnsFns.lean", {"ns": "GenR", "imports": ["Heathcliff.Gen.WordFns"], "table": TABLE_RNS, "opens": ["HC.GenW"], "prelude": PRELUDE_RNS}),
+]
+
+# Gen/Word2Fns.lean (phase 4d): more of src/util/basic.rs - the 192-bit shifts, multi-word comparison, the in-place add / sub and the
+# multi-word modular add / sub built from them.  Functions of Gen/WordFns.lean are referred to as `GenW.f`.
+PRELUDE_WORD2 = """/-- `a.cmp(&b)` on machine words -/
+def cmpW (a b : Nat) : Ordering := if a < b then .lt else if a = b then .eq else .gt
+/-- i32 = Int: `+ - *`, unary `-`, `abs` are overflow-checked -/
+def ckI32 (v : Int) : R Int := if -(2^31 : Int) ≤ v ∧ v < 2^31 then pure v else .error .overflow
+/-- the i32 with the given low 32 bits (two's complement) -/
+def asI32 (n : Nat) : Int := if n % 4294967296 < 2147483648 then Int.ofNat (n % 4294967296) else Int.ofNat (n % 4294967296) - 4294967296
+/-- `a & b` on i32 (two's complement) -/
+def andI32 (a b : Int) : Int := asI32 ((a % 4294967296).toNat &&& (b % 4294967296).toNat)
+/-- `a >> k` on i32, constant `k < 32`: arithmetic shift = floor division -/
+def shrI32 (a : Int) (k : Nat) : Int := a / (2^k : Int)
+/-- `a << v` on i32: only the AMOUNT is checked (`0 <= v < 32`); the value wraps (`1 << 31 = i32::MIN`) -/
+def ckShlI32 (a v : Int) : R Int := if 0 ≤ v ∧ v < 32 then .ok (asI32 ((a % 4294967296).toNat * 2^v.toNat)) else .error .overflow
+"""
+TABLE_WORD2 = [
+    {"file": UB, "fn": "left_shift_u192", "model": "leftShiftU192 [a0, a1, a2] s"},
+    {"file": UB, "fn": "right_shift_u192", "model": "rightShiftU192 [a0, a1, a2] s"},
+    {"file": UB, "fn": "compare_uint", "model": "compareUint"},
+    {"file": UB, "fn": "is_greater_than_or_equal_uint", "model": "geUint"},
+    {"file": UB, "fn": "add_uint_inplace", "model": "addUint a b a.len()"},
+    {"file": UB, "fn": "sub_uint_inplace", "model": "subUint a b a.len()"},
+    {"file": UB, "fn": "add_uint_mod", "model": "addUintMod"},
+    {"file": UB, "fn": "sub_uint_mod", "model": "subUintMod"},
+    {"file": UB, "fn": "add_uint_mod_inplace", "model": "addUintMod"},
+    # number_theory.rs `naf` (i32 arithmetic); fuel 40 / exhaustion = leave the loop, as `nafLoop` of the hand model (an i32 has 32 bits)
+    {"file": UN, "fn": "naf", "model": "HC.naf (|value| < 2^30)", "loops": [{"fuel": 40, "exhausted": "break"}]},
+]
+FILES += [
+    ("Word2Fns.lean", {"ns": "GenW2", "imports": ["Heathcliff.Gen.WordFns"], "table": TABLE_WORD2, "opens": ["HC.GenW"], "prelude": PRELUDE_WORD2}),
 ]
 
 if __name__ == "__main__":
